@@ -102,7 +102,12 @@ def gen_building(rng, n=None, allow_aux=True, allow_multi_aux=False, allow_out=T
             amb = [x * rng.choice([1, 2, 3]) for x in v]
             b.add("CONSUMO", id=i, service=srv, carrier="EAMBIENTE", values=amb)
             r = rng.random()
-            if r < 0.25:      # partial declared production
+            if r < 0.12 and not ratio_only:
+                # declared production above the use at some steps and below at others
+                b.add("PRODUCCION", id=i, source="EAMBIENTE",
+                      values=[x * rng.choice([0, Fraction(1, 2), 1, Fraction(3, 2), 2, 3]) for x in amb])
+                b.tags.add("amb_mixed")
+            elif r < 0.25:      # partial declared production
                 b.add("PRODUCCION", id=i, source="EAMBIENTE", values=[x / 2 for x in amb])
                 b.tags.add("amb_partial")
             elif r < 0.45:    # surplus declared production (exported)
@@ -120,7 +125,11 @@ def gen_building(rng, n=None, allow_aux=True, allow_multi_aux=False, allow_out=T
             v = vec(rng, n)
             b.add("CONSUMO", id=i, service=srv, carrier="TERMOSOLAR", values=v)
             r = rng.random()
-            if r < 0.3:
+            if r < 0.12 and not ratio_only:
+                b.add("PRODUCCION", id=i, source="TERMOSOLAR",
+                      values=[x * rng.choice([0, Fraction(1, 2), 1, Fraction(3, 2), 2, 3]) for x in v])
+                b.tags.add("solar_mixed")
+            elif r < 0.3:
                 b.add("PRODUCCION", id=i, source="TERMOSOLAR",
                       values=[x * rng.choice([Fraction(3, 2), 2]) if ratio_only else x + dy(rng, 1, 640) for x in v])
                 b.tags.add("solar_surplus")
